@@ -9,6 +9,7 @@
 // objects (close + connect/accept again). Within a generation the transfers
 // run one at a time in file order (concurrent = 0) or all at once.
 #include "simkit/world.hpp"
+#include "simkit/pcapref.hpp"
 
 using namespace kit;
 
@@ -61,6 +62,7 @@ struct Run
 	bool in_call = false;
 	std::shared_ptr<Conn> conns[MAXC];
 	bool gather_cross = false, scatter = false, reuse_unread = false, eof_seen = false, wait_style = false;
+	struct PairLog { tcp::endpoint a, b; std::size_t pos; }; std::vector<PairLog> pairs; // (client ep, server ep) of every established generation
 	void fail05(std::string m) { if (err05.empty()) err05 = std::move(m); }
 	void fail06(std::string m) { if (err06.empty()) err06 = std::move(m); }
 };
@@ -392,6 +394,11 @@ void start_generation(std::shared_ptr<Conn> c)
 		if (!e) side_up(c, 0);
 	});
 	R.in_call = false;
+	{
+		boost::system::error_code e2;
+		auto le = c->cli->local_endpoint(e2);
+		if (!e2) R.pairs.push_back({le, sep, w.events.size()});
+	}
 }
 
 // known finding (DESIGN.md §5 #26): retransmission is purely ACK-driven. A segment
@@ -478,9 +485,56 @@ Verdict run_case(Case const& c, Ctx& ctx)
 	bool idle_drop_stall = false; bool const strict = ctx.opt.extra.count("strict") > 0;
 	bool mtu_nondefault = false;
 	std::string err20;
+	bool const c19 = prop == "C19";
+	std::string const pcap_path = ctx.opt.out + "/pcap-w" + std::to_string(ctx.opt.worker) + "-" + std::to_string(::getpid()) + ".bin";
+	struct WireEv { udp::endpoint from; int type; int payload; std::uint64_t hash; long long t; std::size_t pos; };
+	std::vector<WireEv> wire;
+	struct UdpSend { long long at_us; int from, to, size; bool df; udp::endpoint src, dst; bool on_wire; };
+	std::vector<UdpSend> usends;
+	for (auto r : c.all("udp"))
+		if (c19 && r->a.size() >= 5 && r->a[0] >= 0 && r->a[0] <= 30000000 && r->a[3] >= 1 && r->a[3] <= 65507 && usends.size() < 60)
+			usends.push_back(UdpSend{r->a[0], int(((r->a[1] % nn) + nn) % nn), int(r->a[2]), int(r->a[3]), r->a[4] != 0, udp::endpoint(), udp::endpoint(), false});
+	std::stable_sort(usends.begin(), usends.end(), [](UdpSend const& a, UdpSend const& b) { return a.at_us < b.at_us; });
+	std::vector<Run::PairLog> pairs_copy;
 	{
 		World w(topo);
 		R.w = &w;
+		if (c19) w.sim().log_pcap(pcap_path.c_str());
+		std::vector<std::unique_ptr<udp::socket>> usock;
+		std::unique_ptr<sa::high_resolution_timer> udriver;
+		std::size_t unext = 0;
+		std::function<void()> uarm;
+		if (c19)
+		{
+			for (int n = 0; n < nn; ++n)
+			{
+				boost::system::error_code ec;
+				usock.emplace_back(new udp::socket(w.node(n)));
+				usock.back()->open(udp::v4(), ec); usock.back()->bind(udp::endpoint(w.addr(n), 5400), ec); usock.back()->non_blocking(true);
+			}
+			udriver.reset(new sa::high_resolution_timer(w.sim().get_io_context()));
+			uarm = [&]() {
+				if (unext >= usends.size()) return;
+				udriver->expires_at(sclock::time_point(ns(usends[unext].at_us * 1000)));
+				udriver->async_wait([&](boost::system::error_code const& e) {
+					if (e) return;
+					while (unext < usends.size() && usends[unext].at_us * 1000 <= now_ns())
+					{
+						UdpSend& u = usends[unext++];
+						std::vector<unsigned char> pl; fill_payload(pl, 4242, unext * 70000ULL, std::size_t(u.size));
+						boost::system::error_code ec;
+						// to == nn: nobody is bound there (must not be recorded)
+						u.src = udp::endpoint(w.addr(u.from), 5400);
+						int const tn = ((u.to % (nn + 1)) + (nn + 1)) % (nn + 1);
+						u.dst = tn < nn ? udp::endpoint(w.addr(tn), 5400) : udp::endpoint(w.addr((u.from + 1) % nn), 5999);
+						std::size_t const ret = usock[std::size_t(u.from)]->send_to(sa::buffer(pl.data(), pl.size()), u.dst, 0, ec);
+						u.on_wire = !ec && ret == std::size_t(u.size) && tn < nn;
+					}
+					uarm();
+				});
+			};
+			uarm();
+		}
 		for (int i = 0; i < MAXC; ++i)
 		{
 			if (!specs[std::size_t(i)].present || specs[std::size_t(i)].gens.empty()) continue;
@@ -547,7 +601,18 @@ Verdict run_case(Case const& c, Ctx& ctx)
 		for (int i = 0; i < MAXC; ++i) if (auto cn = R.conns[i]) { cn->gen = 1000; boost::system::error_code ec; if (cn->cli) cn->cli->close(ec); if (cn->srv) cn->srv->close(ec); if (cn->acc) cn->acc->close(ec); }
 		{ Budget b(300000); run_budgeted(w.sim(), b); }
 		for (int i = 0; i < MAXC; ++i) if (auto cn = R.conns[i]) { cn->cli.reset(); cn->srv.reset(); cn->acc.reset(); }
+		if (udriver) udriver->cancel();
+		usock.clear(); udriver.reset();
 		{ Budget b(100000); run_budgeted(w.sim(), b); }
+		if (c19)
+		{
+			for (std::size_t ei = 0; ei < w.events.size(); ++ei)
+			{
+				TapEvent const& e = w.events[ei];
+				if (e.kind == 0 && w.taps[std::size_t(e.tap)].role == 0 && (e.type == 5 || e.type == 4)) wire.push_back({e.from, e.type, e.payload, e.hash, e.t, ei});
+			}
+			pairs_copy = R.pairs;
+		}
 
 		if (ctx.opt.verbose)
 			for (auto const& e : w.events)
@@ -614,6 +679,67 @@ Verdict run_case(Case const& c, Ctx& ctx)
 		for (auto const& kv : topo.mtu) if (kv.second != 1475) mtu_nondefault = true;
 		if (w.overflow) inconclusive = true;
 	}
+	std::string err19; long long pcap_tcp_pairs_bidir = 0, pcap_retx = 0, pcap_udp = 0, pcap_records = 0; bool crosses_second = false;
+	if (c19 && !inconclusive)
+	{
+		std::vector<unsigned char> file;
+		{ std::string s2 = read_file(pcap_path); file.assign(s2.begin(), s2.end()); }
+		::unlink(pcap_path.c_str());
+		std::vector<pcapref::Record> recs;
+		err19 = pcapref::parse(file, recs);
+		pcap_records = (long long)recs.size();
+		if (err19.empty() && recs.size() != wire.size())
+			err19 = fmt("capture has %zu records but %zu UDP datagrams / TCP segments left the sockets", recs.size(), wire.size());
+		std::map<std::pair<std::size_t, int>, std::uint32_t> seqsum; // (pair index, direction) -> bytes transmitted so far
+		std::map<std::pair<std::size_t, int>, std::set<std::uint64_t>> seen_hash;
+		std::set<std::pair<std::size_t, int>> dirs_with_data;
+		std::size_t uidx = 0;
+		std::vector<UdpSend const*> uwire; for (auto const& u : usends) if (u.on_wire) uwire.push_back(&u);
+		std::uint64_t last_ts = 0;
+		for (std::size_t i = 0; i < recs.size() && err19.empty(); ++i)
+		{
+			pcapref::Record const& r = recs[i]; WireEv const& e = wire[i];
+			std::uint64_t const ts = std::uint64_t(r.ts_sec) * 1000000ULL + r.ts_usec;
+			std::uint64_t const want = 441794304ULL * 1000000ULL + std::uint64_t(e.t / 1000);
+			if (ts != want) { err19 = fmt("record %zu: timestamp %u.%06u, expected epoch 441794304 + virtual send time %lld us", i, r.ts_sec, r.ts_usec, e.t / 1000); break; }
+			if (ts < last_ts) { err19 = fmt("record %zu: timestamps decrease", i); break; }
+			last_ts = ts;
+			if (r.ts_sec > 441794304u) crosses_second = true;
+			std::uint32_t const esrc = std::uint32_t(e.from.address().to_v4().to_uint());
+			if (r.src != esrc || r.sport != e.from.port()) { err19 = fmt("record %zu: source %u.%u.%u.%u:%d, the packet left %s:%d", i, r.src >> 24, (r.src >> 16) & 255, (r.src >> 8) & 255, r.src & 255, r.sport, e.from.address().to_string().c_str(), e.from.port()); break; }
+			if (int(r.payload.size()) != e.payload || fnv1a(r.payload.data(), r.payload.size()) != e.hash) { err19 = fmt("record %zu: payload (%zu bytes) differs from what was sent (%d bytes)", i, r.payload.size(), e.payload); break; }
+			bool const is_udp = e.from.port() == 5400;
+			if (is_udp)
+			{
+				++pcap_udp;
+				if (r.proto != 17) { err19 = fmt("record %zu: a UDP datagram was recorded with protocol %d", i, r.proto); break; }
+				if (uidx >= uwire.size()) { err19 = fmt("record %zu: more UDP records than datagrams put on the wire", i); break; }
+				UdpSend const& u = *uwire[uidx++];
+				std::uint32_t const edst = std::uint32_t(u.dst.address().to_v4().to_uint());
+				if (r.dst != edst || r.dport != u.dst.port() || int(r.payload.size()) != u.size) { err19 = fmt("record %zu: UDP destination/size %u:%d/%zu, datagram was sent to %s:%d with %d bytes", i, r.dst, r.dport, r.payload.size(), u.dst.address().to_string().c_str(), u.dst.port(), u.size); break; }
+				continue;
+			}
+			if (r.proto != 6) { err19 = fmt("record %zu: a TCP segment was recorded with protocol %d", i, r.proto); break; }
+			// which connection generation / direction?
+			std::size_t pi = std::size_t(-1); int dir = 0;
+			for (std::size_t k = 0; k < pairs_copy.size(); ++k)
+			{
+				if (pairs_copy[k].pos > e.pos) continue;
+				if (tcp::endpoint(e.from.address(), e.from.port()) == pairs_copy[k].a) { pi = k; dir = 0; }
+				else if (tcp::endpoint(e.from.address(), e.from.port()) == pairs_copy[k].b) { pi = k; dir = 1; }
+			}
+			if (pi == std::size_t(-1)) { err19 = fmt("record %zu: TCP segment from %s:%d belongs to no connection", i, e.from.address().to_string().c_str(), e.from.port()); break; }
+			tcp::endpoint const& dst = dir == 0 ? pairs_copy[pi].b : pairs_copy[pi].a;
+			if (r.dst != std::uint32_t(dst.address().to_v4().to_uint()) || r.dport != dst.port()) { err19 = fmt("record %zu: TCP destination port %d, the segment was sent to %s:%d", i, r.dport, dst.address().to_string().c_str(), dst.port()); break; }
+			std::uint32_t& sum = seqsum[{pi, dir}];
+			if (r.tcp_seq != sum) { err19 = fmt("record %zu: TCP sequence number %u, but %u payload bytes were transmitted before in that direction of the connection", i, r.tcp_seq, sum); break; }
+			sum += std::uint32_t(r.payload.size());
+			if (!r.payload.empty()) { dirs_with_data.insert({pi, dir}); if (!seen_hash[{pi, dir}].insert(e.hash).second) ++pcap_retx; }
+		}
+		std::map<std::size_t, int> bid; for (auto const& d : dirs_with_data) ++bid[d.first];
+		for (auto const& kv : bid) if (kv.second == 2) ++pcap_tcp_pairs_bidir;
+	}
+	else if (c19) ::unlink(pcap_path.c_str());
 	if (inconclusive) { v.inconclusive = true; return v; }
 	bool any_reuse = false, any_hold = false;
 	for (auto const& s : specs) if (s.present) { if (s.gens.size() >= 2) any_reuse = true; for (auto const& g : s.gens) if (g.hold) any_hold = true; }
@@ -633,6 +759,15 @@ Verdict run_case(Case const& c, Ctx& ctx)
 		if (idle_drop_stall) { ctx.label("excluded_known_idle_drop"); ++ctx.excluded["C06 known finding: segment dropped while nothing of the connection is outstanding is never re-sent"]; }
 		v.nontrivial = drops > 0 && segs >= 10 && any_hold && !idle_drop_stall;
 		if (!R.err06.empty()) { Verdict f = Verdict::fail("tcp_progress", R.err06); f.nontrivial = v.nontrivial; return f; }
+		if (!R.err05.empty()) { Verdict f = Verdict::fail("tcp_stream", R.err05); f.nontrivial = v.nontrivial; return f; }
+	}
+	else if (prop == "C19")
+	{
+		if (pcap_retx) ctx.label("pcap_retransmission"); if (pcap_udp) ctx.label("pcap_udp"); if (pcap_tcp_pairs_bidir >= 2) ctx.label("pcap_two_bidirectional_connections");
+		if (crosses_second) ctx.label("pcap_crosses_second"); if (R.eof_seen) ctx.label("pcap_closing_segment");
+		for (auto const& u : usends) if (!u.on_wire) { ctx.label("udp_not_on_wire"); break; }
+		v.nontrivial = pcap_tcp_pairs_bidir >= 2 && pcap_retx >= 1 && pcap_udp >= 1;
+		if (!err19.empty()) { Verdict f = Verdict::fail("pcap", err19); f.nontrivial = v.nontrivial; return f; }
 		if (!R.err05.empty()) { Verdict f = Verdict::fail("tcp_stream", R.err05); f.nontrivial = v.nontrivial; return f; }
 	}
 	else
@@ -769,6 +904,40 @@ rc::Gen<Case> gen_c20()
 		});
 }
 
+// C19-style cases: two connections with data both ways, faults (retransmissions), closes, UDP datagrams
+rc::Gen<Case> gen_c19()
+{
+	auto fault = rc::gen::map(kit::weighted({{5, 0}, {3, 1}, {1, 2}}), [](long long a) { return a; });
+	auto udp = rc::gen::map(rc::gen::tuple(rc::gen::oneOf(kit::range(0, 3000000), kit::weighted({{2, 0}, {1, 999999}, {1, 1000000}, {1, 1000001}})), kit::range(0, 1), kit::range(0, 2), rc::gen::oneOf(kit::range(1, 3000), kit::weighted({{1, 1}, {1, 1472}, {1, 30000}, {1, 65507}})), kit::range(0, 1)),
+		[](std::tuple<long long, long long, long long, long long, long long> t) { return mk("udp", {std::get<0>(t), std::get<1>(t), std::get<2>(t), std::get<3>(t), std::get<4>(t)}); });
+	return rc::gen::map(rc::gen::tuple(kit::weighted({{2, 0}, {2, 20000}, {1, 200000}}), kit::weighted({{2, 1000}, {2, 30000}, {1, 400000}}),
+		rc::gen::container<std::vector<long long>>(fault), rc::gen::container<std::vector<long long>>(fault), rc::gen::container<std::vector<Rec>>(udp), kit::range(0, 2), kit::range(0, 9),
+		rc::gen::container<std::vector<Rec>>(gen_xfer(0, 20000, 2)), rc::gen::container<std::vector<Rec>>(gen_xfer(1, 20000, 2))),
+		[](std::tuple<long long, long long, std::vector<long long>, std::vector<long long>, std::vector<Rec>, long long, long long, std::vector<Rec>, std::vector<Rec>> t) {
+			Case c;
+			c.recs.push_back(mk("node", {0})); c.recs.push_back(mk("node", {0}));
+			c.recs.push_back(mk("qnet", {-1, -1, std::get<0>(t), std::get<1>(t), 0}));
+			auto const& f0 = std::get<2>(t); auto const& f1 = std::get<3>(t);
+			c.recs.push_back(mk("fault", {0, 1, 0, 0})); c.recs.push_back(mk("fault", {0, 1, 0, 0})); c.recs.push_back(mk("fault", {0, 1, 1, 0})); // pass two droppable packets, drop the next: a retransmission is likely
+			for (std::size_t i = 0; i < f0.size() && i < 10; ++i) c.recs.push_back(mk("fault", {0, 1, f0[i], 30000}));
+			for (std::size_t i = 0; i < f1.size() && i < 10; ++i) c.recs.push_back(mk("fault", {1, 0, f1[i], 30000}));
+			for (int k = 0; k < 2; ++k)
+			{
+				c.recs.push_back(mk("conn", {k, k, 1 - k, (std::get<5>(t) + k) % 3}));
+				c.recs.push_back(mk("gen", {k, 1, (std::get<6>(t) + k) % 2, 0, 0, 1 - k}));
+				c.recs.push_back(mk("xfer", {k, 0, 4000 + 997 * k, 3, 1, 3, 1, 0}));
+				c.recs.push_back(mk("xfer", {k, 1, 3000, 5, 2, 4, 2, 0}));
+				auto& xs = k == 0 ? std::get<7>(t) : std::get<8>(t);
+				for (std::size_t i = 0; i < xs.size() && i < 2; ++i) c.recs.push_back(xs[i]);
+				if (std::get<6>(t) >= 5) { c.recs.push_back(mk("gen", {k, 0, 0, 0, 0, 1 - k})); c.recs.push_back(mk("xfer", {k, 0, 2000, 3, 1, 3, 1, 0})); }
+			}
+			c.recs.push_back(mk("udp", {10, 0, 1, 100, 0}));
+			c.recs.push_back(mk("udp", {20, 0, 2, 100, 0})); // to nobody: must not be recorded
+			for (auto const& r : std::get<4>(t)) c.recs.push_back(r);
+			return c;
+		});
+}
+
 // exhaustive: all 3^k pass/drop/delay scripts over the first k droppable packets of the forward path
 void enumerate(Ctx& ctx, int k)
 {
@@ -815,6 +984,10 @@ void campaign(Ctx& ctx)
 	{
 		ctx.rc_campaign("tcp progress (small)", gen_c06(60000), thorough ? 8000 : 150, 40, 1);
 		ctx.rc_campaign("tcp progress (large)", gen_c06(thorough ? 2000000 : 300000), thorough ? 1500 : 40, 100, 2);
+	}
+	else if (ctx.opt.prop == "C19")
+	{
+		ctx.rc_campaign("pcap programs", gen_c19(), thorough ? 20000 : 300, 60, 1);
 	}
 	else
 	{
